@@ -190,8 +190,10 @@ func (p *PX) term(v ssa.Value, fr *pxFrame, st *pxState) *Term {
 		}
 		return &Term{K: TLeaf, V: v, T: v.Type(), key: "<" + fr.id + "p:" + x.Name() + ">"}
 	case *ssa.FreeVar:
-		// inside a function literal that was stepped into: the value captured when it was made
-		if t, ok := fr.fvTerm[x]; ok {
+		// inside a function literal that was stepped into: the value captured when it was
+		// made on the path, or — for a closure made by package initialisation and read
+		// from a frozen table (pxconc.go) — the concrete value of the binding
+		if t, ok := fr.fvTerm[x]; ok && t != nil {
 			return t
 		}
 	case *ssa.Function:
@@ -212,8 +214,12 @@ func (p *PX) term(v ssa.Value, fr *pxFrame, st *pxState) *Term {
 		a, b := p.term(x.X, fr, st), p.term(x.Y, fr, st)
 		// x == nil / x != nil for a value that cannot be nil: a function value known on
 		// this path, an address, a concrete value boxed into an interface (`return
-		// newCodecError(…)` from a function stepped into; Go semantics) — pxro.go knownNonNil
+		// newCodecError(…)` from a function stepped into; Go semantics) — pxro.go knownNonNil;
+		// a concrete value read from frozen init-time memory (nil or not) — pxconc.go
 		if t := nilCompare(x.Op, a, b, v.Type()); t != nil {
+			return t
+		}
+		if t := concNilCmp(x.Op, a, b, v.Type()); t != nil {
 			return t
 		}
 		// (x >> a) >> b = x >> (a+b) for constant shifts of the same signedness (bits >>= 8 in a loop)
@@ -275,6 +281,12 @@ func (p *PX) term(v ssa.Value, fr *pxFrame, st *pxState) *Term {
 						return t
 					}
 				}
+			}
+			// memory frozen since package initialisation that the mechanisms above do not
+			// read (tables filled by init functions, closures with bindings, pointers
+			// into tables): the value the interpreter of the initialiser found (pxconc.go)
+			if t := p.concLoad(x.X, v.Type(), fr, st); t != nil {
+				return t
 			}
 			if fa, ok := x.X.(*ssa.FieldAddr); ok {
 				// a field of a local struct variable (also one captured by the function literal
@@ -387,7 +399,8 @@ func (p *PX) term(v ssa.Value, fr *pxFrame, st *pxState) *Term {
 		}
 		a := p.term(x.X, fr, st)
 		// a field of a struct value whose components are known on this path (built
-		// field by field, or a row of a read-only table copied by value)
+		// field by field, a row of a read-only table copied by value, a concrete
+		// aggregate read from frozen memory)
 		if t := p.componentOf(a, x.Field, fr, st); t != nil {
 			return t
 		}
@@ -412,7 +425,15 @@ func (p *PX) term(v ssa.Value, fr *pxFrame, st *pxState) *Term {
 	case *ssa.ChangeType:
 		a := p.term(x.X, fr, st)
 		if _, _, ok := intTypeInfo(p.w, v.Type()); ok {
-			return &Term{K: TConv, A: a, T: v.Type(), key: "conv:" + types.TypeString(v.Type(), nil) + "(" + a.key + ")"}
+			t := &Term{K: TConv, A: a, T: v.Type(), key: "conv:" + types.TypeString(v.Type(), nil) + "(" + a.key + ")"}
+			if a.K == TConst {
+				var fl evalFlags
+				if s := p.f.evalStruct(t, Env{}, &fl); s != nil && s.Card().Cmp(one) == 0 {
+					c := s.Min()
+					return &Term{K: TConst, C: c, T: v.Type(), key: c.String()}
+				}
+			}
+			return t
 		}
 		return a
 	case *ssa.MakeInterface:
@@ -421,9 +442,9 @@ func (p *PX) term(v ssa.Value, fr *pxFrame, st *pxState) *Term {
 			return p.term(x.X, fr, st)
 		}
 	case *ssa.Index:
-		if a := p.term(x.X, fr, st); a.K == TPure && a.Name == "roval" {
+		if a := p.term(x.X, fr, st); (a.K == TPure && a.Name == "roval") || a.CV != nil {
 			if i := p.term(x.Index, fr, st); i.K == TConst && i.C.IsInt64() {
-				if t := p.roComponent(a, int(i.C.Int64()), fr, st); t != nil {
+				if t := p.componentOf(a, int(i.C.Int64()), fr, st); t != nil {
 					return t
 				}
 			}
@@ -468,6 +489,9 @@ func (p *PX) term(v ssa.Value, fr *pxFrame, st *pxState) *Term {
 					nb := big.NewInt(n)
 					return &Term{K: TConst, C: nb, T: v.Type(), key: nb.String()}
 				}
+			}
+			if t := p.concLen(a, v.Type()); t != nil {
+				return t
 			}
 			if ml, ok := st.vals["mklen:"+a.key]; ok && (p.views || ml.K == TConst) {
 				return ml // a slice made on this path: the length it was made with
@@ -789,11 +813,20 @@ func (p *PX) instrs(fr *pxFrame, b *ssa.BasicBlock, from int, st *pxState, k pxC
 					sc, clo, recvTerm = fn, c, recv
 				}
 			}
+			// failing that, a function value read from frozen init-time memory (pxconc.go):
+			// a closure made by package initialisation (its bindings are concrete values), a
+			// method-expression thunk or bound-method wrapper kept in a table
+			var dyn *pxCallee
+			if sc == nil {
+				if d := p.resolveCall(x, fr, st); d != nil && d.fn != nil {
+					sc, dyn = d.fn, d
+				}
+			}
 			inl := sc != nil && stepIn && p.defaultInline(fr, sc)
 			if inl && p.hooks.inline != nil {
 				inl = p.hooks.inline(fr, sc)
 			}
-			if inl && len(sc.FreeVars) > 0 && clo == nil {
+			if inl && len(sc.FreeVars) > 0 && clo == nil && (dyn == nil || len(dyn.binds) < len(sc.FreeVars)) {
 				inl = false // a closure whose captured variables are not known
 			}
 			if !inl {
@@ -819,7 +852,31 @@ func (p *PX) instrs(fr *pxFrame, b *ssa.BasicBlock, from int, st *pxState, k pxC
 				child.subst[sc.Params[0]] = recvTerm
 				off = 1
 			}
+			if dyn != nil {
+				// (the arguments in the order of the callee's parameters, receiver included)
+				for ai, prm := range sc.Params {
+					if ai < len(dyn.args) {
+						child.subst[prm] = dyn.args[ai]
+						if dyn.vals[ai] != nil {
+							if bs := p.byteSeqOf(dyn.vals[ai], fr, st); bs != nil {
+								st.bseq[child.id+regName(prm)] = bs
+							}
+						}
+					}
+				}
+				if len(dyn.binds) > 0 {
+					child.fvTerm = map[*ssa.FreeVar]*Term{}
+					for bi, fv := range sc.FreeVars {
+						if bi < len(dyn.binds) {
+							child.fvTerm[fv] = dyn.binds[bi]
+						}
+					}
+				}
+			}
 			for ai, prm := range sc.Params[off:] {
+				if dyn != nil {
+					break
+				}
 				if ai < len(x.Call.Args) {
 					child.subst[prm] = p.term(x.Call.Args[ai], fr, st)
 					if bs := p.byteSeqOf(x.Call.Args[ai], fr, st); bs != nil {
